@@ -736,57 +736,62 @@ def guided_batches(new_gate, new_inc, new_pos=()):
 
 SELECT_OPTSETS = [((), False), ((), True), (("warning",), False), (("warning",), True), (tuple(GATED), True)]
 
-# sink: (name, prelude, declaration of the variable kind, use expression with %s, bad values, type of the variable)
+# sink: (name, prelude, use statement with %s, classes of bad values (values of one class satisfy the same selector predicate), type)
 SINKS = [
-    ("arrayIndex", "int arr[10];\n", "int r = arr[%s];", [-1, -2, 10, 12, 20], "int"),
-    ("zerodiv", "", "int r = 1000 / %s;", [0, 0, 0], "int"),
-    ("shift", "", "int r = 1 << %s;", [-1, -3, 40, 64], "int"),
-    ("shiftlhs", "", "int r = %s << 2;", [-1, -5], "int"),
-    ("overflow", "", "int r = %s * 1000000;", [100000, 200000, -100000], "int"),
-    ("funcarg", "#include <cstring>\nchar buf[10];\n", "memset(buf, 0, %s); int r = 0;", [-1, -2], "int"),
-    ("container", "#include <vector>\n", "std::vector<int> v(3); int r = v[%s];", [3, 5, 10, -1], "int"),
-    ("stringidx", "#include <string>\n", "std::string s(\"abc\"); int r = s[%s];", [5, 9], "int"),
-    ("signconv", "", "unsigned int r = 10U * %s;", [-1, -7], "int"),
-    ("nullptr", "", "int r = *%s;", [0, 0], "int *"),
+    ("arrayIndex", "int arr[10];\n", "int r = arr[%s];", [[-1, -2, -5], [10, 12, 20]], "int"),
+    ("zerodiv", "", "int r = 1000 / %s;", [[0]], "int"),
+    ("shift", "", "int r = 1 << %s;", [[-1, -3, -4], [40, 64, 33]], "int"),
+    ("shiftlhs", "", "int r = %s << 2;", [[-1, -5, -8]], "int"),
+    ("overflow", "", "int r = %s * 1000000;", [[100000, 200000, 300000], [-100000, -300000, -200000]], "int"),
+    ("funcarg", "#include <cstring>\nchar buf[10];\n", "memset(buf, 0, %s); int r = 0;", [[-1, -2, -9]], "int"),
+    ("container", "#include <vector>\n", "std::vector<int> v(3); int r = v[%s];", [[3, 5, 10], [-1, -4, -2]], "int"),
+    ("stringidx", "#include <string>\n", "std::string s(\"abc\"); int r = s[%s];", [[5, 9, 7]], "int"),
+    ("signconv", "", "unsigned int r = 10U * %s;", [[-1, -7, -3]], "int"),
+    ("nullptr", "", "int r = *%s;", [[0]], "int *"),
 ]
 
 
 def select_templates(rng):
+    """deterministic in its SHAPES (every sink x initialisation x call x condition x pairing of value classes); only the
+    constants inside a class are drawn from the seeded generator"""
     files = []
-    for name, prelude, use, bad, ty in SINKS:
+    for name, prelude, use, classes, ty in SINKS:
+        pairings = [(c, c) for c in classes]                    # both values match the same predicate: the selector must choose
+        if len(classes) > 1:
+            pairings.append((classes[0], classes[1]))           # one value per predicate
         k = 0
-        for init in ("direct", "cond", "param", "defarg"):
-            for call in ("none", "byval", "byaddr"):
-                for cond in ("none", "after", "before"):
-                    if init == "param" and cond == "none":
-                        continue
-                    a, b = rng.choice(bad), rng.choice(bad)
-                    if len(set(bad)) > 1:
-                        while b == a:
-                            b = rng.choice(bad)
-                    av, bv = ("0" if (ty != "int" and a == 0) else str(a)), ("0" if (ty != "int" and b == 0) else str(b))
-                    params, body = ["int c"], []
-                    if init == "direct":
-                        body.append("%s x = %s;" % (ty, av))
-                    elif init == "cond":
-                        body.append("%s x = %s; if (c) x = %s;" % (ty, "&c" if ty != "int" else ("1" if name != "overflow" else "1"), av))
-                    elif init == "param":
-                        params.append("%s x" % ty)
-                    else:
-                        params.append("%s x = %s" % (ty, av))
-                    if cond == "before":
-                        body.append("if (x == %s) {}" % bv)
-                    if call == "byval":
-                        body.append("dostuff(x);")
-                    elif call == "byaddr":
-                        body.append("dostuff(&x);")
-                    body.append(use % "x")
-                    if cond == "after":
-                        body.append("if (x == %s) {}" % bv)
-                    body.append("return r;")
-                    code = prelude + "int f(%s) {\n    %s\n}\n" % (", ".join(params), "\n    ".join(body))
-                    files.append(("sel_%s_%02d_%s_%s_%s.cpp" % (name, k, init, call, cond), code))
-                    k += 1
+        for ca, cb in pairings:
+            for init in ("direct", "cond", "param", "defarg"):
+                for call in ("none", "byval", "byaddr"):
+                    for cond in ("none", "after", "before"):
+                        if init == "param" and cond == "none":
+                            continue
+                        a = rng.choice(ca)
+                        rest = [x for x in cb if x != a] or cb
+                        b = rng.choice(rest)
+                        av, bv = str(a), str(b)
+                        params, body = ["int c"], []
+                        if init == "direct":
+                            body.append("%s x = %s;" % (ty, av))
+                        elif init == "cond":
+                            body.append("%s x = %s; if (c) x = %s;" % (ty, "&c" if ty != "int" else "1", av))
+                        elif init == "param":
+                            params.append("%s x" % ty)
+                        else:
+                            params.append("%s x = %s" % (ty, av))
+                        if cond == "before":
+                            body.append("if (x == %s) {}" % bv)
+                        if call == "byval":
+                            body.append("dostuff(x);")
+                        elif call == "byaddr":
+                            body.append("dostuff(&x);")
+                        body.append(use % "x")
+                        if cond == "after":
+                            body.append("if (x == %s) {}" % bv)
+                        body.append("return r;")
+                        code = prelude + "int f(%s) {\n    %s\n}\n" % (", ".join(params), "\n    ".join(body))
+                        files.append(("sel_%s_%03d_%s_%s_%s.cpp" % (name, k, init, call, cond), code))
+                        k += 1
     return files
 
 
